@@ -40,6 +40,7 @@ struct vm_cam_cfg
     double exposure_ms;
     int fail_get_frame_at;                // index (per start) of the get_frame call that returns Device_Err, -1 never
     int fail_start_at;                    // index of start call (per device) that fails, -1 never
+    int fail_shape_at;                    // index (per start) of the get_shape call that returns Device_Err, -1 never
     int fail_set;                         // set returns Device_Err
     int trigger;                          // frames gated by the software trigger
     // a camera whose region of interest changes during a run (the runtime asks for the shape before every frame and stamps
@@ -65,7 +66,7 @@ struct vm_dev
     int open, closed_pages;
     int self_stops; // runs the device ended by itself (a failing append answers a non-running state)
     int opens, closes, starts, stops, started; // started: between a successful start and stop
-    int calls_in_run, appends_in_run;
+    int calls_in_run, appends_in_run, shape_calls_in_run;
     int acq;      // number of successful starts so far (1-based acquisition number while running)
     // camera
     uint64_t hw_id;
